@@ -335,22 +335,64 @@ package otp
 // ---------------------------------------------------------------------------
 // suites: termination of the token loop (functional contracts of the parser: see DESIGN C15)
 
+// the advertised list is exactly the key set of the registry (rangeseen/rangecount: ghost set and number of the
+// keys the range loop has visited)
 //@ func otp.ListSuites() (suites)
 //@   loop 1 invariant fresh(suites)
-//@   ensures fresh(suites)
+//@   loop 1 invariant len(suites) == rangecount
+//@   loop 1 invariant forall s: seq :: rangeseen(s) ==> maphas(knownSuites, s)
+//@   loop 1 invariant forall k :: 0 <= k && k < len(suites) ==> rangeseen(suites[k])
+//@   loop 1 invariant forall s: seq :: rangeseen(s) ==> exists k :: 0 <= k && k < len(suites) && suites[k] == s
+//@   ensures[fresh] fresh(suites)
+//@   ensures[count] len(suites) == 45
+//@   ensures[sound] forall k :: 0 <= k && k < len(suites) ==> maphas(knownSuites, suites[k])
+//@   ensures[complete] forall s: seq :: maphas(knownSuites, s) ==> exists k :: 0 <= k && k < len(suites) && suites[k] == s
 
 // a data-input token the RFC 6287 naming scheme knows (tu is the upper-cased token t)
 //@ macro isdig(c) = '0' <= c && c <= '9'
 //@ macro sessiontok(tu) = tu == "S" || (len(tu) == 4 && tu[0] == 'S' && isdig(tu[1]) && isdig(tu[2]) && isdig(tu[3]))
 //@ macro tokok(t, tu) = tu == "C" || (hasprefix(tu, "QN") && (len(tu) != 4 || tu[2:] == "08" || tu[2:] == "10")) || hasprefix(tu, "QA") || hasprefix(tu, "QH") ||
 //@ |   tu == "PSHA1" || tu == "PSHA256" || tu == "PSHA512" || (hasprefix(tu, "T") && tgok(t[1:])) || sessiontok(tu)
+// class of an (upper-cased) data-input token, RFC 6287 section 5.1: C | QN.. | QA.. | QH.. | PSHA.. | T.. | S[nnn]
+//@ macro tokcls(tu) = tu == "C" ? 1 : (hasprefix(tu, "QN") ? 2 : (hasprefix(tu, "QA") ? 3 : (hasprefix(tu, "QH") ? 4 : (hasprefix(tu, "PSHA") ? 5 :
+//@ |   (hasprefix(tu, "T") ? 6 : (sessiontok(tu) ? 7 : 0))))))
+//@ macro qn4(tu) = hasprefix(tu, "QN") && len(tu) == 4
+//@ macro tgval(g) = intval(g[:len(g)-1]) * tgmult(g)
+//@ macro qnfmt(tu) = tu[2:] == "08" ? 1 : 2
+//@ macro phfmt(tu) = tu == "PSHA1" ? 1 : (tu == "PSHA256" ? 2 : 3)
 //@ func otp.parseDataInputTokens(cfg, input) (err)
 //@   requires cfg != nil
 //@   modifies cfg
 //@   loop 1 invariant -1 <= rangeindex && rangeindex < len(toks)
 //@   loop 1 invariant cfg.Hash == old(cfg.Hash) && cfg.Digits == old(cfg.Digits) && cfg.Raw == old(cfg.Raw)
-//@   loop 1 invariant forall k :: 0 <= k && k <= rangeindex ==> tokok(toks[k], upper(toks[k]))
+//@   loop 1 invariant forall k :: 0 <= k && k <= rangeindex ==> tokok(part(input, "-", k), upper(part(input, "-", k)))
+//@   loop 1 invariant cfg.IncludeCounter <==> (old(cfg.IncludeCounter) || exists k :: 0 <= k && k <= rangeindex && tokcls(upper(part(input, "-", k))) == 1)
+//@   loop 1 invariant cfg.IncludeChallenge <==> (old(cfg.IncludeChallenge) || exists k :: 0 <= k && k <= rangeindex && 2 <= tokcls(upper(part(input, "-", k))) && tokcls(upper(part(input, "-", k))) <= 4)
+//@   loop 1 invariant cfg.IncludePassword <==> (old(cfg.IncludePassword) || exists k :: 0 <= k && k <= rangeindex && tokcls(upper(part(input, "-", k))) == 5)
+//@   loop 1 invariant cfg.IncludeTimestamp <==> (old(cfg.IncludeTimestamp) || exists k :: 0 <= k && k <= rangeindex && tokcls(upper(part(input, "-", k))) == 6)
+//@   loop 1 invariant cfg.IncludeSession <==> (old(cfg.IncludeSession) || exists k :: 0 <= k && k <= rangeindex && tokcls(upper(part(input, "-", k))) == 7)
+//@   loop 1 invariant (forall k :: 0 <= k && k <= rangeindex ==> !qn4(upper(part(input, "-", k)))) ==> cfg.Challenge == old(cfg.Challenge)
+//@   loop 1 invariant forall k :: 0 <= k && k <= rangeindex && qn4(upper(part(input, "-", k))) && (forall j :: k < j && j <= rangeindex ==> !qn4(upper(part(input, "-", j)))) ==>
+//@ |   cfg.Challenge == qnfmt(upper(part(input, "-", k)))
+//@   loop 1 invariant (forall k :: 0 <= k && k <= rangeindex ==> tokcls(upper(part(input, "-", k))) != 5) ==> cfg.PasswordHash == old(cfg.PasswordHash)
+//@   loop 1 invariant forall k :: 0 <= k && k <= rangeindex && tokcls(upper(part(input, "-", k))) == 5 && (forall j :: k < j && j <= rangeindex ==> tokcls(upper(part(input, "-", j))) != 5) ==>
+//@ |   cfg.PasswordHash == phfmt(upper(part(input, "-", k)))
+//@   loop 1 invariant (forall k :: 0 <= k && k <= rangeindex ==> tokcls(upper(part(input, "-", k))) != 6) ==> cfg.TimeStep == old(cfg.TimeStep)
+//@   loop 1 invariant forall k :: 0 <= k && k <= rangeindex && tokcls(upper(part(input, "-", k))) == 6 && (forall j :: k < j && j <= rangeindex ==> tokcls(upper(part(input, "-", j))) != 6) ==>
+//@ |   cfg.TimeStep == tgval(part(input, "-", k)[1:])
 //@   ensures[tokens] err == nil ==> forall k :: 0 <= k && k < nparts(input, "-") ==> tokok(part(input, "-", k), upper(part(input, "-", k)))
+//@   ensures[session] err == nil ==> (cfg.IncludeSession <==> (old(cfg.IncludeSession) || exists k :: 0 <= k && k < nparts(input, "-") && tokcls(upper(part(input, "-", k))) == 7))
+//@   ensures[counter] err == nil ==> (cfg.IncludeCounter <==> (old(cfg.IncludeCounter) || exists k :: 0 <= k && k < nparts(input, "-") && tokcls(upper(part(input, "-", k))) == 1))
+//@   ensures[challenge] err == nil ==> (cfg.IncludeChallenge <==> (old(cfg.IncludeChallenge) || exists k :: 0 <= k && k < nparts(input, "-") && 2 <= tokcls(upper(part(input, "-", k))) && tokcls(upper(part(input, "-", k))) <= 4))
+//@   ensures[password] err == nil ==> (cfg.IncludePassword <==> (old(cfg.IncludePassword) || exists k :: 0 <= k && k < nparts(input, "-") && tokcls(upper(part(input, "-", k))) == 5))
+//@   ensures[timestamp] err == nil ==> (cfg.IncludeTimestamp <==> (old(cfg.IncludeTimestamp) || exists k :: 0 <= k && k < nparts(input, "-") && tokcls(upper(part(input, "-", k))) == 6))
+//@   let n = nparts(input, "-")
+//@   ensures[qformat] err == nil ==> ((forall k :: 0 <= k && k < n ==> !qn4(upper(part(input, "-", k)))) ==> cfg.Challenge == old(cfg.Challenge)) &&
+//@ |   (forall k :: 0 <= k && k < n && qn4(upper(part(input, "-", k))) && (forall j :: k < j && j < n ==> !qn4(upper(part(input, "-", j)))) ==> cfg.Challenge == qnfmt(upper(part(input, "-", k))))
+//@   ensures[phash] err == nil ==> ((forall k :: 0 <= k && k < n ==> tokcls(upper(part(input, "-", k))) != 5) ==> cfg.PasswordHash == old(cfg.PasswordHash)) &&
+//@ |   (forall k :: 0 <= k && k < n && tokcls(upper(part(input, "-", k))) == 5 && (forall j :: k < j && j < n ==> tokcls(upper(part(input, "-", j))) != 5) ==> cfg.PasswordHash == phfmt(upper(part(input, "-", k))))
+//@   ensures[tstep] err == nil ==> ((forall k :: 0 <= k && k < n ==> tokcls(upper(part(input, "-", k))) != 6) ==> cfg.TimeStep == old(cfg.TimeStep)) &&
+//@ |   (forall k :: 0 <= k && k < n && tokcls(upper(part(input, "-", k))) == 6 && (forall j :: k < j && j < n ==> tokcls(upper(part(input, "-", j))) != 6) ==> cfg.TimeStep == tgval(part(input, "-", k)[1:]))
 //@   ensures[frame] cfg.Hash == old(cfg.Hash) && cfg.Digits == old(cfg.Digits) && cfg.Raw == old(cfg.Raw)
 //@   loop 1 decreases len(toks) - rangeindex
 
@@ -379,6 +421,7 @@ package otp
 //@   ensures[parsed] !maphas(knownSuites, raw) && err == nil ==> dyntype(s, RawSuite) && usable(suitecfg(s)) && suitecfg(s).Raw == raw &&
 //@ |    nparts(raw, ":") >= 3 && part(raw, ":", 0) == "OCRA-1" && cryptook(part(raw, ":", 1)) &&
 //@ |    suitecfg(s).Hash == hashof(part(part(raw, ":", 1)[5:], "-", 0)) && suitecfg(s).Digits == intval(part(part(raw, ":", 1)[5:], "-", 1))
+//@   ensures[means] !maphas(knownSuites, raw) && err == nil ==> dimeans(suitecfg(s), part(raw, ":", 2))
 //@   ensures[tokens] !maphas(knownSuites, raw) && err == nil ==> forall k :: 0 <= k && k < nparts(part(raw, ":", 2), "-") ==>
 //@ |   tokok(part(part(raw, ":", 2), "-", k), upper(part(part(raw, ":", 2), "-", k)))
 
@@ -403,11 +446,25 @@ package otp
 //@   ensures[rest] cfg.Raw == "" && cfg.Challenge == 0 && !cfg.IncludeCounter && !cfg.IncludeChallenge && !cfg.IncludePassword &&
 //@ |   !cfg.IncludeSession && !cfg.IncludeTimestamp && cfg.PasswordHash == 0 && cfg.TimeStep == 0
 
+// what a data-input string di (third part of a suite string) says, for a configuration built from scratch:
+// a flag is set exactly when a token of its class occurs; formats and time step come from the (last) token that carries them
+//@ macro dimeans(c, di) = (c.IncludeCounter <==> exists k :: 0 <= k && k < nparts(di, "-") && tokcls(upper(part(di, "-", k))) == 1) &&
+//@ |   (c.IncludeChallenge <==> exists k :: 0 <= k && k < nparts(di, "-") && 2 <= tokcls(upper(part(di, "-", k))) && tokcls(upper(part(di, "-", k))) <= 4) &&
+//@ |   (c.IncludePassword <==> exists k :: 0 <= k && k < nparts(di, "-") && tokcls(upper(part(di, "-", k))) == 5) &&
+//@ |   (c.IncludeTimestamp <==> exists k :: 0 <= k && k < nparts(di, "-") && tokcls(upper(part(di, "-", k))) == 6) &&
+//@ |   (c.IncludeSession <==> exists k :: 0 <= k && k < nparts(di, "-") && tokcls(upper(part(di, "-", k))) == 7) &&
+//@ |   ((forall k :: 0 <= k && k < nparts(di, "-") ==> !qn4(upper(part(di, "-", k)))) ==> c.Challenge == 0) &&
+//@ |   (forall k :: 0 <= k && k < nparts(di, "-") && qn4(upper(part(di, "-", k))) && (forall j :: k < j && j < nparts(di, "-") ==> !qn4(upper(part(di, "-", j)))) ==> c.Challenge == qnfmt(upper(part(di, "-", k)))) &&
+//@ |   ((forall k :: 0 <= k && k < nparts(di, "-") ==> tokcls(upper(part(di, "-", k))) != 5) ==> c.PasswordHash == 0) &&
+//@ |   (forall k :: 0 <= k && k < nparts(di, "-") && tokcls(upper(part(di, "-", k))) == 5 && (forall j :: k < j && j < nparts(di, "-") ==> tokcls(upper(part(di, "-", j))) != 5) ==> c.PasswordHash == phfmt(upper(part(di, "-", k)))) &&
+//@ |   ((forall k :: 0 <= k && k < nparts(di, "-") ==> tokcls(upper(part(di, "-", k))) != 6) ==> c.TimeStep == 0) &&
+//@ |   (forall k :: 0 <= k && k < nparts(di, "-") && tokcls(upper(part(di, "-", k))) == 6 && (forall j :: k < j && j < nparts(di, "-") ==> tokcls(upper(part(di, "-", j))) != 6) ==> c.TimeStep == tgval(part(di, "-", k)[1:]))
 //@ func otp.parseRawSuite(raw) (cfg, err)
 //@   ensures[version] err == nil ==> nparts(raw, ":") >= 3 && part(raw, ":", 0) == "OCRA-1"
 //@   ensures[crypto] err == nil ==> cryptook(part(raw, ":", 1)) && cfg.Hash == hashof(part(part(raw, ":", 1)[5:], "-", 0)) &&
 //@ |   cfg.Digits == intval(part(part(raw, ":", 1)[5:], "-", 1))
 //@   ensures[raw] err == nil ==> cfg.Raw == raw && usable(cfg)
+//@   ensures[means] err == nil ==> dimeans(cfg, part(raw, ":", 2))
 //@   ensures[tokens] err == nil ==> forall k :: 0 <= k && k < nparts(part(raw, ":", 2), "-") ==>
 //@ |   tokok(part(part(raw, ":", 2), "-", k), upper(part(part(raw, ":", 2), "-", k)))
 
